@@ -1070,6 +1070,25 @@ namespace vh
     }
   }
 
+  /// solver parameters that differ from `p` in everything that matters (other coefficient set / stage count, other
+  /// step-size controls): used to build the solver object that a history move-assigns another solver onto
+  inline RecRosParams decoyParams(const RecRosParams& p)
+  {
+    auto q = p.stages_ == 2 ? micm::RosenbrockSolverParameters::SixStageDifferentialAlgebraicRosenbrockParameters()
+                            : micm::RosenbrockSolverParameters::TwoStageRosenbrockParameters();
+    q.h_start_ = p.h_start_ == 0.0 ? 0.37 : p.h_start_ * 0.37;
+    q.max_number_of_steps_ = 3;
+    return RecRosParams(q);
+  }
+  inline micm::BackwardEulerSolverParameters decoyParams(const micm::BackwardEulerSolverParameters& p)
+  {
+    micm::BackwardEulerSolverParameters q = p;
+    q.h_start_ = p.h_start_ == 0.0 ? 0.37 : p.h_start_ * 0.37;
+    q.max_number_of_steps_ = p.max_number_of_steps_ == 2 ? 5 : 2;
+    q.time_step_reductions_ = { 0.3, 0.3, 0.3, 0.3, 0.3 };
+    return q;
+  }
+
   template<class BuilderT, class ParamsT, class BuilderT2, class ParamsT2>
   std::string runHist(Tok& t, std::size_t integ, std::size_t integ2, std::size_t ncell, std::size_t ns,
                       const std::vector<micm::Process>& procs, const ParamsT& params, const ParamsT2& params2)
@@ -1190,6 +1209,28 @@ namespace vh
               {
                 S2 tmp(std::move(*sv2));
                 *sv2 = std::move(tmp);
+              }
+              return "ok";
+            }
+            if (op == "mvs_x")
+            {
+              // move-assign the solver ONTO a live solver of the same type that was built with different parameters,
+              // destroy the source, and continue with the moved-to object: it must behave exactly like its source
+              auto k = t.nat();
+              auto sysd = micm::System(micm::SystemParameters{ .gas_phase_ = micm::Phase{ sp } });
+              if (k == 0)
+              {
+                auto decoy = std::make_unique<S1>(BuilderT(decoyParams(params)).SetSystem(sysd).SetReactions(procs)
+                                                      .SetNumberOfGridCells(ncell).SetReorderState(false).Build());
+                *decoy = std::move(*sv1);
+                sv1 = std::move(decoy);
+              }
+              else
+              {
+                auto decoy = std::make_unique<S2>(BuilderT2(decoyParams(params2)).SetSystem(sysd).SetReactions(procs)
+                                                      .SetNumberOfGridCells(ncell).SetReorderState(false).Build());
+                *decoy = std::move(*sv2);
+                sv2 = std::move(decoy);
               }
               return "ok";
             }
